@@ -27,6 +27,7 @@ HasQuote(text) == \E k \in 1..Len(text) : text[k] = "Q"
 FFmt(r) ==
   LET mk(sig) == {<<"C14", r.id, 0, 0, sig>>} IN
   (IF r.fout = "panic" THEN mk("formatter-panic") ELSE {})
+  \cup (IF r.fout = "hang" THEN mk("formatter-does-not-return") ELSE {})
   \cup (IF r.lex.out = "panic" \/ r.lexf1.out = "panic" THEN mk("lexer-panic") ELSE {})
   \cup
   \* the formatter returns text with exactly the same tokens and comments ...
